@@ -18,6 +18,9 @@ Wrap(ts, i, j) == SubSeq(ts, 1, i - 1) \o <<"(">> \o SubSeq(ts, i, j) \o <<")">>
 Single(ts) == UNION {{Wrap(ts, i, j) : j \in {k \in OperandIdx(ts) : k > i}} : i \in OperandIdx(ts)}
 \* a second pair around operands of the already parenthesised string (crossing ones do not parse and are dropped)
 Double(ts) == UNION {Single(u) : u \in Single(ts)}
+StartIdx(ts) == {i \in DOMAIN ts : ts[i] \in Slots \cup {"!", "("}}
+EndIdx(ts) == {j \in DOMAIN ts : ts[j] \in Slots \cup {")"}}
+WrapAny(ts) == UNION {{Wrap(ts, i, j) : j \in {k \in EndIdx(ts) : k >= i}} : i \in StartIdx(ts)}
 NotAt(ts, i) == SubSeq(ts, 1, i - 1) \o <<"!">> \o SubSeq(ts, i, Len(ts))
 Nots(ts) == {NotAt(ts, i) : i \in {k \in DOMAIN ts : ts[k] \in Slots \cup {"("}}}
 
@@ -26,7 +29,15 @@ Strings ==
       s1 == UNION {Single(f) : f \in Flats}
       s2 == UNION {Double(f) : f \in small}
       n1 == UNION {Nots(x) : x \in small \cup UNION {Single(f) : f \in small}}
-  IN Flats \cup s1 \cup s2 \cup n1
+      \* a second `!`: negations nested directly inside a negated bracket, `!(!a)`, `!((!a) && b)`, `!(!(a < b))`
+      n2 == UNION {Nots(x) : x \in {y \in n1 : Len(y) <= 8}}
+      \* brackets that start at a `!` or a `(` and may hold a single operand: `(a)`, `(!a)`, `!(!a)`, `!(!(a < b))`, `!((!a))`
+      tiny == {f \in Flats : Len(f) <= 3} \cup {y \in n1 : Len(y) <= 6}
+      w1 == UNION {WrapAny(x) : x \in tiny}
+      w2 == UNION {WrapAny(x) : x \in {y \in w1 : Len(y) <= 6}}
+      n3 == UNION {Nots(x) : x \in w1 \cup w2}
+      n4 == UNION {Nots(x) : x \in {y \in n3 : Len(y) <= 8}}
+  IN Flats \cup s1 \cup s2 \cup n1 \cup n2 \cup w1 \cup w2 \cup n3 \cup n4
 
 Shapes == {[tokens |-> ts, tree |-> Parse(ts).tree] : ts \in {x \in Strings : Parse(x).ok}}
 
